@@ -271,11 +271,16 @@ func (sw *StreamWriter) Flush() error {
 	}
 
 	if !sw.db.opt.managedTxns {
+		// Take the read timestamp before stopping the oracle. readTs waits on the txnMark
+		// watermark, and Stop terminates the goroutine that processes it: with a commit whose
+		// timestamp is not yet marked done (or whose Done mark is still queued), calling readTs
+		// after Stop would wait forever.
+		curMax := sw.db.orc.readTs()
 		if sw.db.orc != nil {
 			sw.db.orc.Stop()
 		}
 
-		if curMax := sw.db.orc.readTs(); curMax >= sw.maxVersion {
+		if curMax >= sw.maxVersion {
 			sw.maxVersion = curMax
 		}
 
